@@ -436,3 +436,31 @@ func init() {
 		}
 	})
 }
+
+// C01WHY: debugging entry: generate plain programs, print those that are outside the proved
+// fragments together with the reason the driver gives (env C01_WHY_N, default 40).
+func init() {
+	register("C01WHY", func(c *Ctx) {
+		n := 40
+		if v := os.Getenv("C01_WHY_N"); v != "" {
+			fmt.Sscan(v, &n)
+		}
+		shown := 0
+		for i := 0; i < n; i++ {
+			src, _ := GenProgram(c.Rng, GenOpts{NoMap: true, NoDisable: true, MaxDepth: 1 + i%3, MaxCalls: 2 + i%4})
+			prog, _, err := c01CompileStatic(src)
+			if err != nil {
+				continue
+			}
+			rep := c01ParseStatic(c.Drv.Ask("C01.static", prog, "-"))
+			if rep.skip || rep.bad != "" || rep.frag {
+				continue
+			}
+			shown++
+			fmt.Fprintf(os.Stderr, "=== %d why=%s\n%s\n", i, rep.why, src)
+			if shown >= 3 {
+				break
+			}
+		}
+	})
+}
